@@ -179,6 +179,14 @@ def _shard_entry(args):
     import signal
 
     def on_alarm(sig, frm):
+        # first expiry: raise into the running case; if some handler swallows that and the shard blocks again,
+        # the second expiry ends the process (the parent reports a harness error, exit 2)
+        if getattr(on_alarm, "fired", False):
+            sys.stderr.write(f"[{kwargs.get('prop', '?')}] shard watchdog expired twice: shard process ends\n")
+            sys.stderr.flush()
+            os._exit(3)
+        on_alarm.fired = True
+        signal.alarm(120)
         raise ShardTimeout("shard watchdog expired (a case blocked outside the controlled loop?)")
     try:
         # hard watchdog: a hang is a harness error (exit 2), never a silent block
@@ -205,9 +213,18 @@ def run_sharded(fn_mod, fn_name, shard_kwargs):
     if n == 1 or os.environ.get("MVF_INLINE"):
         parts = [_shard_entry(j) for j in jobs]
     else:
+        import concurrent.futures as cf
         ctx = multiprocessing.get_context("fork")
-        with ctx.Pool(n, maxtasksperchild=None) as pool:
-            parts = pool.map(_shard_entry, jobs, chunksize=1)
+        parts = []
+        with cf.ProcessPoolExecutor(n, mp_context=ctx) as pool:
+            futs = [pool.submit(_shard_entry, j) for j in jobs]
+            for j, f in zip(jobs, futs):
+                try:
+                    parts.append(f.result())
+                except BaseException as e:  # noqa   (a shard process died: harness error, never a verdict)
+                    a = Acc(j[2].get("prop", "?"))
+                    a.harness_errors.append(f"shard process ended abnormally: {type(e).__name__}: {e}")
+                    parts.append(a.to_json())
     return merge(parts)
 
 
